@@ -54,6 +54,16 @@ func c20Traces(l *loaded) (map[string][]interp.SyncEvent, string) {
 	}
 	const sym = "verif_c20_fresh_symbol"
 	out := map[string][]interp.SyncEvent{}
+	// a str object that exists before the traced calls and is shared by them (as the keys handed out
+	// by SymHash2Str / Env.Items and strs of a common outer scope are)
+	h0, err0 := eng.Call(get, sym+"_shared")
+	if err0 != nil {
+		return nil, "GetSymHash: " + err0.Error()
+	}
+	sharedStr, err0 := eng.Call(l.fn("object.VH_C20_sharedStr"), h0)
+	if err0 != nil {
+		return nil, "VH_C20_sharedStr: " + err0.Error()
+	}
 	// every cell reachable from the repo's package-level variables is shared state
 	c20SharedCells = eng.MarkShared(modPath)
 	eng.TraceEvents = true
@@ -78,6 +88,13 @@ func c20Traces(l *loaded) (map[string][]interp.SyncEvent, string) {
 		return nil, "GetSymHash: " + err.Error()
 	}
 	out["intern_other_new"] = eng.Events
+	for _, m := range []string{"SymHash", "Hash", "Inspect"} {
+		eng.Events = nil
+		if _, err := eng.Call(l.fn("object.VH_C20_str"+m), sharedStr); err != nil {
+			return nil, "PanStr." + m + ": " + err.Error()
+		}
+		out["shared_str_"+m] = eng.Events
+	}
 	eng.TraceEvents = false
 	return out, ""
 }
@@ -345,7 +362,7 @@ func c20HeldSig(evs []interp.SyncEvent) []string {
 }
 
 func c20TraceRaces(tr map[string][]interp.SyncEvent, tier string, r *c20PubResult) {
-	names := []string{"intern_new", "intern_other_new", "intern_known", "hash_to_str"}
+	names := []string{"intern_new", "intern_other_new", "intern_known", "hash_to_str", "shared_str_SymHash", "shared_str_Hash", "shared_str_Inspect"}
 	conv := func(evs []interp.SyncEvent) []c20Event {
 		out := make([]c20Event, len(evs))
 		for i, e := range evs {
@@ -424,6 +441,10 @@ import (
 
 func TestVerifTraceRace(t *testing.T) {
 	var wg sync.WaitGroup
+	shared := make([]*PanStr, 3000)
+	for i := range shared {
+		shared[i] = NewPanStr(fmt.Sprintf("verif_shared_%d", i))
+	}
 	for w := 0; w < 2; w++ {
 		wg.Add(1)
 		go func(w int) {
@@ -432,6 +453,9 @@ func TestVerifTraceRace(t *testing.T) {
 				h := GetSymHash(fmt.Sprintf("verif_tr_%d_%d", w, i))
 				_, _ = SymHash2Str(h)
 				_ = GetSymHash(fmt.Sprintf("verif_tr_%d_%d", w, i))
+				_ = shared[i].SymHash()
+				_ = shared[i].Hash()
+				_ = shared[i].Inspect()
 			}
 		}(w)
 	}
